@@ -330,11 +330,72 @@ def r6_map_nodes_read_only(ctx):
         yield o
 
 
+ONE_SHOT = ('map', 'filter', 'zip', 'iter', 'reversed', 'enumerate')
+
+
+def _one_shot(v):
+    """expression whose value is an iterator that is used up by being read"""
+    if isinstance(v, ast.GeneratorExp):
+        return 'a generator expression'
+    if isinstance(v, ast.Call) and isinstance(v.func, ast.Name) and v.func.id in ONE_SHOT:
+        return '%s(...)' % v.func.id
+    if isinstance(v, ast.IfExp):
+        return _one_shot(v.body) or _one_shot(v.orelse)
+    if isinstance(v, ast.BoolOp):
+        for x in v.values:
+            r = _one_shot(x)
+            if r:
+                return r
+    return None
+
+
+def r7_no_one_shot_state(ctx):
+    """an iterator (map/filter/zip/iter/reversed/enumerate object, generator) kept as object, class or module state is
+    consumed by the first read - membership test, loop, list() - and is empty for every later one: what the object
+    answers then depends on how often it was asked before.  State must be a list/tuple/set/dict.  (In Python 2
+    map/filter/zip returned lists; code ported from there is where this appears.)"""
+    km = KeyMaker()
+    n = 0
+    for m in ctx.all_mods():
+        for st in ast.walk(m.tree):
+            tgt = val = None
+            if isinstance(st, ast.Assign) and len(st.targets) == 1:
+                tgt, val = st.targets[0], st.value
+            elif isinstance(st, ast.AnnAssign) and st.value is not None:
+                tgt, val = st.target, st.value
+            if tgt is None:
+                continue
+            fn = A.enclosing_function(st)
+            is_state = (isinstance(tgt, ast.Attribute) and path_of(tgt) and path_of(tgt).startswith('self.')) or \
+                (isinstance(tgt, ast.Name) and fn is None)
+            if not is_state:
+                continue
+            n += 1
+            kind = _one_shot(val)
+            if kind is None and isinstance(val, ast.Name) and fn is not None:
+                # a local that is bound to an iterator in this function
+                defs = [d.value for d in ast.walk(fn) if isinstance(d, ast.Assign) and len(d.targets) == 1 and path_of(d.targets[0]) == val.id]
+                kinds = [k for k in (_one_shot(d) for d in defs) if k]
+                kind = kinds[0] if kinds and len(kinds) == len(defs) else None
+            if kind is not None:
+                yield Ob(km('%s %s stores a one-shot iterator' % (m.name, norm(tgt))), False, ctx.loc(m, st),
+                         '`%s` is %s: the first membership test or loop uses it up, later reads see it empty - results depend on earlier use of the object'
+                         % (norm(st, 90), kind))
+    yield Ob('no object, class or module state is a one-shot iterator', True, 'pyx12/', nontrivial=True, note='%d state assignments examined' % n)
+    if n < 300:
+        raise AnalysisError('only %d state assignments found' % n)
+    # the recogniser itself: must match the textbook case on every run
+    probe = ast.parse("class K:\n    def __init__(self, t):\n        self.names = map(str.strip, t.split(',')) if t is not None else []\n").body[0].body[0].body[0]
+    if _one_shot(probe.value) is None:
+        raise AnalysisError('one-shot recogniser does not match its positive example')
+
+
 RULES = [
     Rule('C18.R1', 'mutable default arguments are never mutated (directly or through a stored alias)', r1_mutable_defaults, floor=4),
     Rule('C18.R2', 'no mutated module/class-level state, no global, no caching decorators', r2_shared_state, floor=22),
     Rule('C18.R3', 'time/random/env/id/hash only in the three envelope/date sites and only into the allowed fields', r3_nondeterminism, floor=9),
     Rule('C18.R4', 'set values are sorted before any order-sensitive use', r4_set_order, floor=4),
     Rule('C18.R5', 'fresh reader/walker/error handler/index/maps per call', r5_fresh_objects, floor=9),
+    Rule('C18.R7', 'no object/class/module state is a one-shot iterator (map/filter/zip/generator)', r7_no_one_shot_state, floor=1),
     Rule('C18.R6', 'loaded map nodes keep no per-call state (shared with C16.R9)', r6_map_nodes_read_only, floor=2),
 ]
